@@ -29,6 +29,7 @@ package main
 // directory names that need escaping in a linker symbol.
 
 import (
+	"runtime"
 	"fmt"
 	"go/ast"
 	"go/parser"
@@ -820,7 +821,23 @@ type c20Abort string
 
 // Write turns log.Fatalf (ctx.Fatalf) into a recoverable panic before it
 // reaches os.Exit.
-func (c20LogTrap) Write(p []byte) (int, error) { panic(c20Abort(strings.TrimSpace(string(p)))) }
+func (c20LogTrap) Write(p []byte) (int, error) {
+	// only a log call that is about to end the process is an aborted build; what the tool merely
+	// says on the log (progress, summaries) is swallowed
+	var pcs [24]uintptr
+	frames := runtime.CallersFrames(pcs[:runtime.Callers(2, pcs[:])])
+	for {
+		fr, more := frames.Next()
+		if strings.HasPrefix(fr.Function, "log.Fatal") || strings.HasPrefix(fr.Function, "log.(*Logger).Fatal") ||
+			strings.HasPrefix(fr.Function, "log.Panic") || strings.HasPrefix(fr.Function, "log.(*Logger).Panic") {
+			panic(c20Abort(strings.TrimSpace(string(p))))
+		}
+		if !more {
+			break
+		}
+	}
+	return len(p), nil
+}
 
 type c20Table struct {
 	entries []c20Entry
